@@ -32,8 +32,11 @@ Stores(o, m) ==
   IF m.hasCif THEN o.cif /\ ((m.kind # "async" /\ m.isResult) => o.ok) ELSE (m.isResult => o.ok)
 
 \* harness operation -> Conc operation (for the single cache of the run)
-TrOp(o, m) ==
-  CASE o.op = "call" -> [op |-> IF Stores(o, m) THEN "call" ELSE "callx", k |-> ToString(o.k)]
+\* estimate of the String-valued fixtures: 24 bytes inline + length (Result<String, _>: 32 + length)
+ValSize(o, m, cf) == IF cf.maxmem = 0 THEN 1 ELSE IF m.isResult THEN o.size + 8 ELSE o.size
+
+TrOp(o, m, cf) ==
+  CASE o.op = "call" -> [op |-> IF Stores(o, m) THEN "call" ELSE "callx", k |-> ToString(o.k), size |-> ValSize(o, m, cf)]
     [] o.op = "inv_with" ->
          IF o.x = m.cacheName THEN [op |-> "inv_with", sel |-> SeqSet(o.sel), naux |-> 1]
          ELSE [op |-> "aux", naux |-> 1]
@@ -60,7 +63,7 @@ Load(r) ==
   /\ c' = r.sts0[n]
   /\ c0' = r.sts0[n]
   /\ ver' = r.ver0
-  /\ prog' = [t \in DOMAIN r.program |-> [i \in DOMAIN r.program[t] |-> TrOp(r.program[t][i], r.metas[n])]]
+  /\ prog' = [t \in DOMAIN r.program |-> [i \in DOMAIN r.program[t] |-> TrOp(r.program[t][i], r.metas[n], r.cfgs[n])]]
   /\ pc' = [t \in DOMAIN r.program |-> PC0]
   /\ mapL' = 0 /\ orderL' = 0
   /\ res' = [t \in DOMAIN r.program |-> <<>>]
